@@ -159,12 +159,12 @@ class Gen:
       b, off = s.mem_operand(); d = s.dst() or 6
       s.emit('lw', d, b, 0, off)
       c = rng.random()
-      if c < 0.4: s.emit(rng.choice(['add', 'and', 'sll', 'srl']), s.dst(), d, s.src())
+      if c < 0.4: s.emit(rng.choice(['add', 'and', 'sll', 'srl']), s.dst(), *rng.choice([(d, s.src()), (s.src(), d), (d, d)]))
       elif c < 0.6: s.emit('csrw', 0, d, 0, 0x7C0)
       elif c < 0.8:
         b2, off2 = rng.choice(P_REGS), 4 * rng.randint(-6, 6); s.emit('sw', 0, b2, d, off2)
       else:
-        L = s.label(); s.emit('bne', 0, d, s.src(), L); s.block(rng.randint(1, 3), depth + 1, plain=True); s.items.append(('label', L))
+        L = s.label(); s.emit('bne', 0, *rng.choice([(d, s.src()), (s.src(), d)]), L); s.block(rng.randint(1, 3), depth + 1, plain=True); s.items.append(('label', L))
     elif k == 'sw':
       b, off = s.mem_operand()
       if b == 0: b, off = rng.choice(P_REGS), 4 * rng.randint(-6, 6)
@@ -188,6 +188,7 @@ class Gen:
     elif k == 'nop': s.items.append(('nop',)); s.count += 1
     elif k == 'skip':                                             # forward branch over a block
       L = s.label(); s.emit('bne', 0, s.src(), s.src(), L)
+      if rng.random() < 0.5: s.shadow()
       s.block(rng.randint(1, 5), depth + 1); s.items.append(('label', L))
     elif k == 'loop' and s.free_counters:                         # bounded backward branch with a down-counter
       c = s.free_counters.pop(); L = s.label()
@@ -199,6 +200,15 @@ class Gen:
       for _ in range(rng.choice([0, 0, 0, 1])): s.emit('addi', s.dst(), s.src(), 0, rng.choice(IMMS))
       s.emit('bne', 0, c, 0, L)
       s.free_counters.append(c)
+      if rng.random() < 0.5: s.shadow()
+
+  def shadow(s):
+    """an instruction with an architectural side effect right behind a branch (must be squashed when the branch is taken)"""
+    rng = s.rng; c = rng.random()
+    if c < 0.3: s.emit('csrr', s.dst() or 7, 0, 0, 0xFC0)
+    elif c < 0.55: s.emit('csrw', 0, s.src(), 0, 0x7C0)
+    elif c < 0.8: s.emit('sw', 0, rng.choice(P_REGS), s.src(), 4 * rng.randint(-6, 6))
+    else: s.emit('lw', s.dst(), rng.choice(P_REGS), 0, 4 * rng.randint(-6, 6))
 
   def block(s, n, depth, plain=False):
     for _ in range(n):
